@@ -1513,6 +1513,14 @@ def mk_call(key, args, targs, an, cur):
         return mk_field(("dc", args[0], "Ok"), "0", 0)
     if key == "core::convert::From::from" and len(args) == 1 and targs and len(targs) >= 2 and targs[0] == targs[1]:
         return args[0]
+    if key.split("::")[-1] == "rotate_left" and key.split("::")[0] in ("usize", "u64") and len(args) == 2 \
+            and args[0][0] == "const" and args[0][2] == 1:
+        # 1.rotate_left(k) with k below the width is 1 << k (one canonical spelling of a single-bit mask)
+        amt = args[1]
+        if amt[0] == "cast" and amt[1] == "IntToInt":
+            amt = amt[2]
+        if amt[0] == "bin" and amt[1] == "BitAnd" and any(x[0] == "const" and isinstance(x[2], int) and x[2] < 64 for x in (amt[2], amt[3])):
+            return mk_bin("Shl", args[0], amt)
     if key == "core::num::nonzero::NonZero::get" and len(args) == 1:
         v = _nonzero_value(args[0])
         if v is not None:
@@ -1608,6 +1616,14 @@ def count_of_iter(d, an):
                    "core::iter::traits::iterator::Iterator::copied",
                    "core::iter::traits::iterator::Iterator::cloned") and args:
             return count_of_iter(args[0], an)
+        if key == "slice::iter" and args:
+            # one item per element of the slice / vector iterated
+            x = args[0]
+            while x[0] == "call" and x[1] in E.DEREF_KEYS and x[3]:
+                x = x[3][0]
+            x = strip_ref(x)
+            if x[0] == "at" and x[2] is None:
+                return mk_len(x, an)
     return None
 
 
